@@ -101,18 +101,21 @@ Definition fitsb (b : budgets) (p2 p3 : list pinfo) : bool :=
   (length p2 <=? b_local b)%nat && (length p3 <=? b_rt b)%nat &&
   forallb (okb (b_coop b)) (p2 ++ p3) && forallb (fun p => negb (p_out p)) p3.
 
+Lemma okb_ok c p : okb c p = true <-> ok c p.
+Proof.
+  unfold okb, ok. rewrite andb_true_iff, N.leb_le. destruct (p_yld p); cbn [negb]; intuition discriminate.
+Qed.
+
 Lemma fitsb_spec b p2 p3 : fitsb b p2 p3 = true <-> fits b p2 p3.
 Proof.
   unfold fitsb, fits. rewrite !andb_true_iff, !forallb_forall, !Forall_forall, !Nat.leb_le.
   split.
-  - intros [[[H1 H2] H3] H4]. repeat split; try assumption.
-    + apply N.leb_le. specialize (H3 x H). unfold okb in H3. apply andb_true_iff in H3. apply H3.
-    + specialize (H3 x H). unfold okb in H3. apply andb_true_iff in H3. destruct H3 as [_ H3].
-      destruct (p_yld x); [discriminate|reflexivity].
-    + intros x Hx. specialize (H4 x Hx). destruct (p_out x); [discriminate|reflexivity].
-  - intros [H1 [H2 [H3 H4]]]. repeat split; try assumption.
-    + intros x Hx. destruct (H3 x Hx) as [Ha Hb]. unfold okb. rewrite Hb. rewrite (proj2 (N.leb_le _ _) Ha). reflexivity.
-    + intros x Hx. rewrite (H4 x Hx). reflexivity.
+  - intros [[[H1 H2] H3] H4]. split; [exact H1|]. split; [exact H2|]. split.
+    + intros p Hp. apply okb_ok. exact (H3 p Hp).
+    + intros p Hp. specialize (H4 p Hp). destruct (p_out p); [discriminate|reflexivity].
+  - intros [H1 [H2 [H3 H4]]]. split; [split; [split; [exact H1|exact H2]|]|].
+    + intros p Hp. apply okb_ok. exact (H3 p Hp).
+    + intros p Hp. rewrite (H4 p Hp). reflexivity.
 Qed.
 
 (* an event = budgets, instant, callback actions, state of the module's task system *)
